@@ -418,3 +418,121 @@ func TestWitness_C20_EntityAfterFailedNext(t *testing.T) {
 		t.Fatal("world locked")
 	}
 }
+
+// C20 (and C10): MapN.Set on an entity lacking one of the mapped components panics in every build and
+// leaves the components it has untouched (the default build used to overwrite the earlier components
+// before panicking on the missing one, the ark_debug build did not).
+func TestWitness_C20_SetMissingComponent(t *testing.T) {
+	w := ecs.NewWorld(2, 1)
+	mA := ecs.NewMap1[compA](w)
+	e := mA.NewEntity(&compA{V: 1})
+	m2 := ecs.NewMap2[compA, compB](w)
+	mustPanic(t, "Map2.Set on an entity without the second component", func() { m2.Set(e, &compA{V: 99}, &compB{V: 5}) })
+	if v := mA.Get(e).V; v != 1 {
+		t.Fatalf("rejected Set changed component A to %d", v)
+	}
+	m3 := ecs.NewMap3[compA, compC, compB](w)
+	mustPanic(t, "Map3.Set on an entity without the later components", func() { m3.Set(e, &compA{V: 77}, &compC{V: 5}, &compB{V: 5}) })
+	if v := mA.Get(e).V; v != 1 {
+		t.Fatalf("rejected Set changed component A to %d", v)
+	}
+}
+
+// C10/C04: a relation component named twice (which hides an omitted target of another relation
+// component from the "fully specified" count) is rejected. It used to succeed and left the table with
+// a shadowed target that was never detached when it died: afterwards every valid Add/Remove on the
+// entity panicked with "dead entity as relation target".
+func TestWitness_C10_DuplicateRelationComponent(t *testing.T) {
+	w := ecs.NewWorld(2, 1)
+	idA := ecs.ComponentID[compA](w)
+	id1 := ecs.ComponentID[rel1](w)
+	id2 := ecs.ComponentID[rel2](w)
+	u := w.Unsafe()
+	t0, t1 := w.NewEntity(), w.NewEntity()
+	mustPanic(t, "NewEntityRel naming one relation component twice and omitting the other", func() {
+		u.NewEntityRel([]ecs.ID{id1, id2}, ecs.RelID(id1, t0), ecs.RelID(id1, t1))
+	})
+	e := u.NewEntityRel([]ecs.ID{id1, id2}, ecs.RelID(id1, t0), ecs.RelID(id2, t1))
+	mustPanic(t, "AddRel naming a relation component twice", func() {
+		u.AddRel(w.NewEntity(), []ecs.ID{id1}, ecs.RelID(id1, t0), ecs.RelID(id1, t1))
+	})
+	w.RemoveEntity(t0)
+	u.Add(e, idA) // a valid call: must not fail
+	if u.GetRelation(e, id1) != (ecs.Entity{}) || u.GetRelation(e, id2) != t1 {
+		t.Fatal("targets wrong after the target of the first relation was removed")
+	}
+	if w.IsLocked() {
+		t.Fatal("world locked")
+	}
+}
+
+// C10: a batch operation that is rejected (a component that some matched entities already have, a
+// removed entity as relation target) panics and leaves the world unlocked and unchanged; it used to
+// leave the world locked for ever.
+func TestWitness_C10_RejectedBatchLeavesWorldUnlocked(t *testing.T) {
+	w := ecs.NewWorld(2, 1)
+	mapA := ecs.NewMap1[compA](w)
+	mapAB := ecs.NewMap2[compA, compB](w)
+	e0 := mapA.NewEntity(&compA{1})
+	e1 := mapAB.NewEntity(&compA{2}, &compB{3})
+	fA := ecs.NewFilter1[compA](w)
+	mapB := ecs.NewMap1[compB](w)
+	mustPanic(t, "AddBatch of a component that one matched table already has", func() {
+		mapB.AddBatch(fA.Batch(), &compB{9})
+	})
+	if w.IsLocked() {
+		t.Fatal("world locked after the rejected AddBatch")
+	}
+	if mapB.HasAll(e0) || !mapAB.HasAll(e1) {
+		t.Fatal("rejected AddBatch changed entities")
+	}
+	_, b := mapAB.Get(e1)
+	if b.V != 3 {
+		t.Fatal("rejected AddBatch changed values")
+	}
+	// a removed entity as target in SetRelationsBatch
+	mapR := ecs.NewMap1[rel1](w)
+	tg := w.NewEntity()
+	dead := w.NewEntity()
+	w.RemoveEntity(dead)
+	c := mapR.NewEntity(&rel1{}, ecs.RelIdx(0, tg))
+	fR := ecs.NewFilter1[rel1](w)
+	mustPanic(t, "SetRelationsBatch with a removed entity as target", func() {
+		mapR.SetRelationsBatch(fR.Batch(), nil, ecs.RelIdx(0, dead))
+	})
+	if w.IsLocked() {
+		t.Fatal("world locked after the rejected SetRelationsBatch")
+	}
+	if mapR.GetRelation(c, 0) != tg {
+		t.Fatal("rejected SetRelationsBatch changed a target")
+	}
+	w.NewEntity() // structural changes work again
+}
+
+// C04/C10: the targets of a relation table are registered when the table is created, also when the
+// operation that created it is rejected afterwards (a batch whose second table is not eligible).
+// Otherwise removing the target skips the cleanup, the table keeps the dead target, and a stale
+// handle of that target is accepted as relation target (entity with a dead target).
+func TestWitness_C04_TargetsRegisteredWithTable(t *testing.T) {
+	w := ecs.NewWorld(2, 1)
+	idA := ecs.ComponentID[compA](w)
+	idR := ecs.ComponentID[rel1](w)
+	u := w.Unsafe()
+	tg := w.NewEntity()
+	other := w.NewEntity()
+	u.NewEntity(idA)
+	u.NewEntityRel([]ecs.ID{idA, idR}, ecs.RelID(idR, other))
+	f := ecs.NewFilter0(w).With(ecs.C[compA]())
+	mapR := ecs.NewMap1[rel1](w)
+	// first table {A}: destination {A,R->tg} is created; second table {A,R} already has R: rejected
+	mustPanic(t, "AddBatch of a relation component some matched entities already have", func() {
+		mapR.AddBatch(f.Batch(), &rel1{}, ecs.RelIdx(0, tg))
+	})
+	if w.IsLocked() {
+		t.Fatal("world locked after the rejected batch")
+	}
+	w.RemoveEntity(tg)
+	mustPanic(t, "NewEntityRel with the removed entity as target", func() {
+		u.NewEntityRel([]ecs.ID{idA, idR}, ecs.RelID(idR, tg))
+	})
+}
